@@ -174,8 +174,8 @@ func (fullGraph *FullGraph) MapToGraph(trie *PathTrie) *gographviz.Graph {
 	fullGraph.layerIndex = 1
 	fullGraph.nodeIndex = 1
 
-	for _, child := range trie.Children {
-		fullGraph.buildGraphNode("G", child, graph, nodes, "")
+	for part, child := range trie.Children {
+		fullGraph.buildGraphNode("G", child, graph, nodes, part)
 	}
 
 	for key := range fullGraph.RelationList {
@@ -194,24 +194,19 @@ func (fullGraph *FullGraph) MapToGraph(trie *PathTrie) *gographviz.Graph {
 	return graph
 }
 
-func (fullGraph *FullGraph) buildGraphNode(subgraph string, current *PathTrie, graph *gographviz.Graph, nodes map[string]string, s string) {
-	if s != "" {
-		s = s + "." + current.Value
-	} else {
-		s = s + current.Value
-	}
-
+// path is the trie path of current, i.e. the node key as BuildMapTree inserted it ("." written as "/")
+func (fullGraph *FullGraph) buildGraphNode(subgraph string, current *PathTrie, graph *gographviz.Graph, nodes map[string]string, path string) {
 	layerAttr, layerName := buildLayerAttr(current.Value, fullGraph.layerIndex)
 	_ = graph.AddSubGraph(subgraph, layerName, layerAttr)
 	fullGraph.layerIndex++
 
 	if len(current.Children) > 0 {
-		for _, child := range current.Children {
-			fullGraph.buildGraphNode(layerName, child, graph, nodes, s)
+		for part, child := range current.Children {
+			fullGraph.buildGraphNode(layerName, child, graph, nodes, path+part)
 		}
 	} else {
 		_ = graph.AddNode(subgraph, "node"+strconv.Itoa(fullGraph.nodeIndex), fullGraph.buildRelationAttr(current.Value))
-		nodes[s] = "node" + strconv.Itoa(fullGraph.nodeIndex)
+		nodes[strings.ReplaceAll(path, "/", ".")] = "node" + strconv.Itoa(fullGraph.nodeIndex)
 		fullGraph.nodeIndex++
 	}
 }
